@@ -594,7 +594,7 @@ func (x *Exec) invariantLoop(s ast.Stmt, ord int, spec *LoopSpec, st *State, cs 
 	// loop lets: evaluated in the pre-state
 	for _, l := range spec.Lets {
 		v, _ := x.cexpr(l.C.Expr, x.cctx(st, l.C))
-		st.ghosts[l.Name] = v
+		st.ghosts[l.Name] = x.nameLet(st, l.Name, v)
 	}
 	// 1. invariant holds on entry
 	for _, inv := range spec.Invariants {
